@@ -131,3 +131,13 @@ SPECS["C08"].append(
              doc="one grid point, one timetrace; `numpoints` is `scattering_matrix.shape[0]`; amplitudes and angles in one scalar type"))
 DEPENDS["C08"] = ["C10"]
 IMPORTS["C08"] = ["ArimModel.Src", "ArimProofs.Generated.SrcC10"]
+
+SPECS["C02"] += [
+    FuncSpec(DAS, "sinc", "das_sinc", [("x", K)], ret=K, doc="the kernels' own sinc (numpy convention, 1 at 0)"),
+    FuncSpec(DAS, "lanczos_interpolation", "lanczos_interpolation", [("t", K), ("x", A(D, 1)), ("a", N), ("n", N)],
+             bind={"len(x)": ("n", N)}, locals={"out": D}, doc="`n` is `len(x)`"),
+    FuncSpec(DAS, "_delay_and_sum_noamp_lanczos", "das_noamp_lanczos",
+             DAS_COMMON + [("invdt", K), ("t0", K), ("fillvalue", D), ("a", N)] + DAS_SHAPES,
+             bind={"lanczos_interpolation": ("(fun t x a => lanczos_interpolation o d t x a numsamples)", F([K, A(D, 1), N], D))},
+             locals={"res_tmp": D}, skip=DAS_SKIP, cell=DAS_CELL),
+]
